@@ -1394,6 +1394,43 @@ func r13_5(c *Ctx) {
 				g = true
 			}
 		}
+		if !g {
+			// the same test written per map: len(typed) == 0 && len(all) == 0
+			typedEmpty, allEmpty := false, false
+			for _, ifi := range ifsIn(fn) {
+				var arg ssa.Value
+				op, k, succ, ok := cmpConstEdge(ifi, func(v ssa.Value) bool {
+					if !isLenOfGuarded(v) {
+						return false
+					}
+					arg = v.(*ssa.Call).Call.Args[0]
+					return true
+				})
+				if !ok {
+					continue
+				}
+				e := -1
+				switch {
+				case (op == token.EQL && k == 0) || (op == token.LSS && k == 1) || (op == token.LEQ && k == 0):
+					e = succ
+				case (op == token.NEQ && k == 0) || (op == token.GTR && k == 0) || (op == token.GEQ && k == 1):
+					e = 1 - succ
+				}
+				if e < 0 || !edgeDominates(ifi.Block(), e, ret.Block()) {
+					continue
+				}
+				if _, n, _, isF := fieldOfLoad(arg); isF && n == "callbacksAll" {
+					allEmpty = true
+				} else {
+					for _, src := range sources(arg) {
+						if _, isLk := src.(*ssa.Lookup); isLk {
+							typedEmpty = true
+						}
+					}
+				}
+			}
+			g = typedEmpty && allEmpty
+		}
 		c.check(g, name+":early-return", P.ipos(ret), "the early return is taken only when no callback is registered", "dispatch can return before calling the registered callbacks")
 	}
 	// the dispatch call in the read callback passes the yielded event
